@@ -118,10 +118,10 @@ def explore(ctx, execute, max_depth, chunk=8, selfcheck_every=101, seen=None, st
                     st.states += 1
                     nxt.append((h, res["enabled"]))
                     st.reps.append(h)
+                    if len(st.samples) < 5 and (depth >= 2 or len(st.samples) < 1):
+                        st.samples.append({"history": list(h), "state": str(res["key"])[:300]})
                 elif collect_all:
                     st.nonreps.append(h)
-                    if len(st.samples) < 5 and depth >= 2:
-                        st.samples.append({"history": list(h), "state": str(res["key"])[:300]})
             # determinism: violations and a fixed subset are executed a second time
             for h, res in recheck[:400]:
                 _, res2, err = _run(h)
